@@ -22,6 +22,12 @@ def add_entry(W, path, kind, tag=''):
         W.file(path + '/sub/deep', 'deep in %s\n' % path, mode=0o444)
         W.link(path + '/inner', 'sub/deep')
         W.link(path + '/dang', 'nowhere')
+    elif kind == 'tree-ro':
+        # a directory tree without any write permission bit (not in KINDS: used where modes matter)
+        W.dir(path, mode=0o555)
+        W.file(path + '/f1', 'f1 in %s%s\n' % (path, tag), mode=0o444)
+        W.dir(path + '/sub', mode=0o500)
+        W.file(path + '/sub/deep', 'deep in %s\n' % path, mode=0o400)
     elif kind == 'lfile':
         W.link(path, '/home/u/tgt/file')
     elif kind == 'ldir':
@@ -117,6 +123,11 @@ def classify_put(before, after, E, orig=None, orig_path=None, others=()):
     orig = orig if orig is not None else before
     orig_path = orig_path or E
     ni, npay = new_infos(before, after), new_payloads(before, after)
+    # what merely travelled INSIDE a new payload (a directory that happens to have files/ and info/ children) is part of that payload
+    tops = ['%s/files/%s/' % x for x in npay]
+    nested = lambda td: any((td + '/').startswith(t) for t in tops)
+    ni = [x for x in ni if not nested(x[0])]
+    npay = [x for x in npay if not nested(x[0])]
     if others:
         # multi-argument run: leave out the pairs that belong to the other denoted entries
         mine_i = []
